@@ -1,8 +1,10 @@
 package internal_planner
 
 import (
+	"bytes"
 	"github.com/metrico/qryn/reader/logql/logql_parser"
 	"github.com/metrico/qryn/reader/logql/logql_transpiler_v2/shared"
+	"text/template"
 )
 
 type LabelFormatPlanner struct {
@@ -23,8 +25,17 @@ func (a *LabelFormatPlanner) Process(ctx *shared.PlannerContext,
 				return nil, err
 			}
 
+			// the constant is a template, as in line_format and as the SQL engine reads it
+			tpl, err := template.New("label").Option("missingkey=zero").Funcs(functionMap).Parse(str)
+			if err != nil {
+				return nil, err
+			}
 			labelFns = append(labelFns, func(m map[string]string) map[string]string {
-				m[label] = str
+				var buf bytes.Buffer
+				if err := tpl.Execute(&buf, m); err != nil {
+					return m
+				}
+				m[label] = buf.String()
 				return m
 			})
 			continue
